@@ -295,37 +295,37 @@ impl<N: Clone + Hash + Debug> WorkshopAttribute<N> for Vec<Community> {
         local_attr: Self,
         attrs: &mut PaMap,
     ) -> Result<(), ComposeError> {
+        // Sort the communities into the four attributes carrying them.
+        // These replace whatever community attributes were set before, so
+        // that retrieve() returns what was stored here.
+        let mut standard = StandardCommunitiesList::new();
+        let mut extended = Vec::new();
+        let mut ipv6_extended = Vec::new();
+        let mut large = Vec::new();
         for comm in local_attr {
             match comm {
-                Community::Standard(c) => {
-                    if let Some(mut b) =
-                        attrs.get::<StandardCommunitiesList>()
-                    {
-                        b.add_community(c)
-                    }
-                }
-                Community::Extended(c) => {
-                    if let Some(mut b) =
-                        attrs.get::<ExtendedCommunitiesList>()
-                    {
-                        b.add_community(c)
-                    }
-                }
-                Community::Ipv6Extended(c) => {
-                    if let Some(mut b) =
-                        attrs.get::<Ipv6ExtendedCommunitiesList>()
-                    {
-                        b.add_community(c)
-                    }
-                }
-                Community::Large(c) => {
-                    if let Some(mut b) =
-                        attrs.get::<LargeCommunitiesList>()
-                    {
-                        b.add_community(c)
-                    }
-                }
+                Community::Standard(c) => standard.add_community(c),
+                Community::Extended(c) => extended.push(c),
+                Community::Ipv6Extended(c) => ipv6_extended.push(c),
+                Community::Large(c) => large.push(c),
             };
+        }
+
+        attrs.remove::<StandardCommunitiesList>();
+        attrs.remove::<ExtendedCommunitiesList>();
+        attrs.remove::<Ipv6ExtendedCommunitiesList>();
+        attrs.remove::<LargeCommunitiesList>();
+        if !standard.communities().is_empty() {
+            attrs.set(standard);
+        }
+        if !extended.is_empty() {
+            attrs.set(ExtendedCommunitiesList::new(extended));
+        }
+        if !ipv6_extended.is_empty() {
+            attrs.set(Ipv6ExtendedCommunitiesList::new(ipv6_extended));
+        }
+        if !large.is_empty() {
+            attrs.set(LargeCommunitiesList::new(large));
         }
 
         Ok(())
